@@ -88,8 +88,11 @@ Theorem C14_limits_step : forall e sv en sv',
   (max_sessions sv = 0 \/ nsess sv' <= N.max (nsess sv) (max_sessions sv))%N /\
   (max_channels sv = 0 \/ nchan sv' <= N.max (nchan sv) (max_channels sv))%N /\
   match en with
-  | EConfig _ _ _ (Some g) =>
-      max_sessions sv' = g_maxSessions g /\ max_channels sv' = g_maxChannels g /\ nsess sv' = nsess sv /\ nchan sv' = nchan sv
+  | EConfig _ _ rev (Some g) =>
+      (if (rev =? g_revision (sv_config sv) + 1)%N
+       then max_sessions sv' = g_maxSessions g /\ max_channels sv' = g_maxChannels g
+       else max_sessions sv' = max_sessions sv /\ max_channels sv' = max_channels sv) /\
+      nsess sv' = nsess sv /\ nchan sv' = nchan sv
   | _ => max_sessions sv' = max_sessions sv /\ max_channels sv' = max_channels sv
   end.
 Proof. exact limits_step. Qed.
